@@ -182,6 +182,11 @@ def build(flags: dict, ir_version=10, opset=18) -> onnx.ModelProto:
         g.value_info.extend(vis)
         g.value_info.append(_vi("not_a_value_of_this_graph"))
         g.value_info.append(_vi("w"))                       # value-info naming an initializer
+        # an initializer whose own value-info gives the element type only (unknown rank), and one with a symbolic dim
+        g.initializer.append(H.make_tensor("w_rankless", TP.FLOAT, [1, 4], vals=[0.5] * 4))
+        g.value_info.append(H.make_tensor_value_info("w_rankless", TP.FLOAT, None))
+        g.initializer.append(H.make_tensor("w_symdim", TP.FLOAT, [2], vals=[0.5, 1.5]))
+        g.value_info.append(H.make_tensor_value_info("w_symdim", TP.FLOAT, ["K"]))
     if f("quantization"):
         qa = g.quantization_annotation.add()
         qa.tensor_name = "a"
